@@ -24,11 +24,12 @@ def parseClass (j : Json) : Except String ClassDef := do
       | .error e => throw e
     pure ({ name := ← getStr p "name", default := d, instantiate := ← getBool p "inst", bounds := ← optPair p "bounds" } : ParamDef)
   let methods ← (← getArr j "methods").toList.mapM fun m => do
-    let dep ← strs (← m.getObjVal? "dep")
-    match dep with
-    | [p] => pure ({ name := ← getStr m "name", dep := .own p } : MethodDef)
-    | [a, x] => pure ({ name := ← getStr m "name", dep := .sub a x } : MethodDef)
-    | _ => throw "dep shape"
+    let deps ← (← getArr m "deps").toList.mapM fun d => do
+      match ← strs d with
+      | [p] => pure (Dep.own p)
+      | [a, x] => pure (Dep.sub a x)
+      | _ => throw "dep shape"
+    pure ({ name := ← getStr m "name", deps := deps } : MethodDef)
   return { name := ← getStr j "name", params := params, methods := methods, plain := ← strs (← j.getObjVal? "plain") }
 
 /-- one world (main or twin) with its handle table -/
@@ -105,6 +106,8 @@ def jOpt {α : Type} (f : α → Json) : Option α → Json
 def jInts (l : List Int) : Json := Json.arr (l.map toJson).toArray
 def jStrs (l : List String) : Json := Json.arr (l.map Json.str).toArray
 def jPair (p : Int × Int) : Json := Json.arr #[toJson p.1, toJson p.2]
+def jChanged (d : List (String × Option (List String))) : Json :=
+  Json.arr (d.map fun (n, sp) => Json.arr #[Json.str n, jOpt jStrs sp]).toArray
 
 def jVal : SVal → Json
   | .none => Json.null
@@ -118,9 +121,9 @@ def jObj (o : SObj) : Json := Json.mkObj [
   ("pcopies", Json.arr (o.pcopies.map fun (n, b, c) => Json.arr #[Json.str n, jOpt jPair b, Json.bool c]).toArray),
   ("attrs", Json.arr (o.attrs.map fun (n, v) => Json.arr #[Json.str n, jVal v]).toArray),
   ("watchers", Json.arr (o.watchers.map fun (n, ws) => Json.arr #[Json.str n, Json.arr (ws.map fun wt =>
-      Json.arr #[toJson wt.inst, Json.str wt.kind, toJson wt.owner, Json.str wt.method, jOpt jStrs wt.changed, toJson wt.precedence]).toArray]).toArray),
+      Json.arr #[toJson wt.inst, Json.str wt.kind, toJson wt.owner, Json.str wt.method, jOpt jChanged wt.changed, toJson wt.precedence]).toArray]).toArray),
   ("dyn", Json.arr (o.dyn.map fun (n, ws) => Json.arr #[Json.str n, Json.arr (ws.map fun d =>
-      Json.arr #[toJson d.inst, toJson d.owner, Json.str d.method, jOpt jStrs d.changed, Json.bool d.found]).toArray]).toArray)]
+      Json.arr #[toJson d.inst, toJson d.owner, Json.str d.method, jOpt jChanged d.changed, Json.bool d.found]).toArray]).toArray)]
 
 def jSnap (s : Snap) : Json := Json.arr (s.map jObj).toArray
 
@@ -149,6 +152,16 @@ def pOptStrs (j : Json) : Except String (Option (List String)) :=
   | .null => pure none
   | _ => do pure (some (← strs j))
 
+def pChanged (j : Json) : Except String (Option (List (String × Option (List String)))) :=
+  match j with
+  | .null => pure none
+  | _ => do
+    let l ← (← j.getArr?).toList.mapM fun e => do
+      let a ← e.getArr?
+      if a.size != 2 then throw "changed entry expected"
+      pure (← a[0]!.getStr?, ← pOptStrs a[1]!)
+    pure (some l)
+
 def pObj (j : Json) : Except String SObj := do
   let values ← (← getArr j "values").toList.mapM fun e => do
     let a ← e.getArr?
@@ -169,14 +182,14 @@ def pObj (j : Json) : Except String SObj := do
     let ws ← (← a[1]!.getArr?).toList.mapM fun x => do
       let q ← x.getArr?
       pure ({ inst := ← q[0]!.getNat?, kind := ← q[1]!.getStr?, owner := ← q[2]!.getNat?, method := ← q[3]!.getStr?,
-              changed := ← pOptStrs q[4]!, precedence := ← q[5]!.getInt? } : SWatcher)
+              changed := ← pChanged q[4]!, precedence := ← q[5]!.getInt? } : SWatcher)
     pure (← a[0]!.getStr?, ws)
   let dyn ← (← getArr j "dyn").toList.mapM fun e => do
     let a ← e.getArr?
     let ws ← (← a[1]!.getArr?).toList.mapM fun x => do
       let q ← x.getArr?
       pure ({ inst := ← q[0]!.getNat?, owner := ← q[1]!.getNat?, method := ← q[2]!.getStr?,
-              changed := ← pOptStrs q[3]!, found := ← q[4]!.getBool? } : SDyn)
+              changed := ← pChanged q[3]!, found := ← q[4]!.getBool? } : SDyn)
     pure (← a[0]!.getStr?, ws)
   return { cls := ← getStr j "cls", values := values, pcopies := pcopies, attrs := attrs, watchers := watchers, dyn := dyn }
 
@@ -223,6 +236,7 @@ def handle (req : Json) : Except String Json := do
   let troot ← resolveRef twin rootJ
   let origAt := snapshot main.w root
   if !wfB main.w then throw "model world is not well-formed (a reference points outside the world)"
+  if !ownWatchersB main.w then throw "model world is not well-formed (a watcher is registered on another object than its inst)"
   let mut branches : List String := []
   let model : Obs ← match copyGraph pol main.w root with
     | .error .unsupported => throw "copy outside the modelled fragment"
